@@ -620,4 +620,159 @@ theorem ptrOf_pend_le (data : List SView) (e : Nat) (it : Nat × Nat) (hs : Sort
     rw [pendId_last st (by rw [hid]; exact this) i]
     exact Nat.zero_le _
 
+
+/-! ### one `IterateEpochPointer` call and the loop over the epoch pointers -/
+
+/-- static requirements on the cached stream list (what sorting by id, `validateGauges` and the id counter give) -/
+structure GoodCache (c : Caches) : Prop where
+  nodup : (c.streams.map (·.id)).Nodup
+  sorted : (c.streams.map (·.id)).Pairwise (· ≤ ·)
+  recs : ∀ st ∈ c.streams, StrictInc (st.recs.map (·.gauge))
+  bound : ∀ st ∈ c.streams, st.id < maxU64
+
+theorem strictInc_of_sorted_nodup (l : List Nat) (h1 : l.Pairwise (· ≤ ·)) (h2 : l.Nodup) : StrictInc l := by
+  apply strictInc_of_pairwise
+  induction l with
+  | nil => exact List.Pairwise.nil
+  | cons x xs ih =>
+    obtain ⟨a1, a2⟩ := List.pairwise_cons.1 h1
+    obtain ⟨b1, b2⟩ := List.nodup_cons.1 h2
+    refine List.pairwise_cons.2 ⟨?_, ih a2 b2⟩
+    intro y hy
+    have := a1 y hy
+    have : x ≠ y := fun he => b1 (he ▸ hy)
+    omega
+
+theorem GoodCache.sortedData {c : Caches} (h : GoodCache c) : SortedData (c.streams.map Stream.view) := by
+  have hids : (c.streams.map Stream.view).map (·.id) = c.streams.map (·.id) := by
+    simp [List.map_map, Function.comp_def, Stream.view]
+  refine ⟨?_, ?_, ?_⟩
+  · rw [hids]; exact strictInc_of_sorted_nodup _ h.sorted h.nodup
+  · intro sv hsv
+    obtain ⟨st, hst, he⟩ := List.mem_map.1 hsv
+    rw [← he]; exact h.recs st hst
+  · intro k hk
+    rw [hids]
+    have hk' : k < c.streams.length := by simpa using hk
+    have : (c.streams.map (·.id)).getD k 0 = (c.streams[k]).id := by simp [List.getD_eq_getElem?_getD, hk']
+    rw [this]; exact h.bound _ (List.getElem_mem hk')
+
+theorem GoodCache.of_grown {c c' : Caches} (h : GoodCache c) (hg : Grown c c') : GoodCache c' := by
+  have hid : c'.streams.map (·.id) = c.streams.map (·.id) := by
+    apply List.ext_getElem
+    · simp [hg.1]
+    · intro k h1 h2
+      simp only [List.getElem_map]
+      have hk : k < c.streams.length := by simpa using h2
+      have hk' : k < c'.streams.length := by simpa using h1
+      rw [(hg.2 k hk hk').1]
+  refine ⟨by rw [hid]; exact h.nodup, by rw [hid]; exact h.sorted, ?_, ?_⟩
+  · intro st hst
+    obtain ⟨k, hk, he⟩ := List.getElem_of_mem hst
+    have hk0 : k < c.streams.length := by rw [← hg.1]; exact hk
+    have := (hg.2 k hk0 hk).1
+    rw [← he, this]; exact h.recs c.streams[k] (List.getElem_mem hk0)
+  · intro st hst
+    obtain ⟨k, hk, he⟩ := List.getElem_of_mem hst
+    have hk0 : k < c.streams.length := by rw [← hg.1]; exact hk
+    have := (hg.2 k hk0 hk).1
+    rw [← he, this]; exact h.bound c.streams[k] (List.getElem_mem hk0)
+
+/-- the quantity the window accounting keeps from growing: distributed + pending after the stream's own pointer -/
+def Qv (c : Caches) (ps : List Pointer) (k i : Nat) : Nat :=
+  distAt c k i + pendId (ps.getD (slot c k).epochId Pointer.last) (slot c k) i
+
+theorem slot_static {c c' : Caches} (hg : Grown c c') (k : Nat) (hk : k < c.streams.length) :
+    slot c' k = { slot c k with distributed := (slot c' k).distributed } := by
+  have hk' : k < c'.streams.length := by rw [hg.1]; exact hk
+  rw [slot_eq c' k hk', slot_eq c k hk]
+  exact (hg.2 k hk hk').1
+
+theorem pendId_static {a b : Stream} (h : a = { b with distributed := a.distributed }) (p : Pointer) (i : Nat) :
+    pendId p a i = pendId p b i := by
+  unfold pendId
+  rw [h]
+  simp only
+  exact sharesOf_congr rfl rfl rfl _ i
+
+theorem iterate_window (s : State) (e : Nat) (p : Pointer) (max : Nat) (c : Caches) (hgc : GoodCache c) :
+    let res := iterateEpochPointer (c.streams.map Stream.view) e p max (rewardsCb s) c
+    Grown c res.2.2 ∧
+    (∀ k, k < c.streams.length → ∀ i, distAt res.2.2 k i + pendId res.1 (slot c k) i ≤ distAt c k i + pendId p (slot c k) i) ∧
+    (∀ k, k < c.streams.length → (slot c k).epochId ≠ e → slot res.2.2 k = slot c k) := by
+  intro res
+  have hsh : Shape (c.streams.map Stream.view) c := ⟨rfl, hgc.nodup⟩
+  have hsd := hgc.sortedData
+  have hres1 : res.1 = ptrOf (c.streams.map Stream.view) e
+      (paginate (c.streams.map Stream.view) e (rewardsCb s) max (totalRecs (c.streams.map Stream.view) + 1) (newIter (c.streams.map Stream.view) e p) 0 c).1 :=
+    iterate_ptr _ e p max (rewardsCb s) c
+  have hres2 : res.2.2 = (paginate (c.streams.map Stream.view) e (rewardsCb s) max (totalRecs (c.streams.map Stream.view) + 1) (newIter (c.streams.map Stream.view) e p) 0 c).2.2 := rfl
+  obtain ⟨w1, w2, w3⟩ := paginate_window s (c.streams.map Stream.view) e max (totalRecs (c.streams.map Stream.view) + 1) (newIter (c.streams.map Stream.view) e p) 0 c hsh
+  refine ⟨by rw [hres2]; exact w2, ?_, ?_⟩
+  · intro k hk i
+    have hkd : k < (c.streams.map Stream.view).length := by simpa using hk
+    have hidk : (slot c k).id = ((c.streams.map Stream.view)[k]).id := by rw [slot_eq c k hk]; simp [Stream.view]
+    have hreck : (slot c k).recs = ((c.streams.map Stream.view)[k]).recs := by rw [slot_eq c k hk]; simp [Stream.view]
+    have b1 := newIter_pend_le (c.streams.map Stream.view) e p hsd k hkd (slot c k) hidk hreck i
+    have b2 := ptrOf_pend_le (c.streams.map Stream.view) e
+      (paginate (c.streams.map Stream.view) e (rewardsCb s) max (totalRecs (c.streams.map Stream.view) + 1) (newIter (c.streams.map Stream.view) e p) 0 c).1
+      hsd k hkd (slot c k) hidk hreck i
+    have := w3 k hk i
+    rw [hres1, hres2]
+    omega
+  · intro k hk hne
+    rw [hres2]
+    exact paginate_other s _ e max _ _ _ c hsh k hk hne
+
+theorem ptrLoop_window (s : State) (maxOps : Nat) : ∀ (es : List Nat) (total : Nat) (c : Caches) (ps : List Pointer), GoodCache c →
+    Grown c (ptrLoop s maxOps es total c ps).2.1 ∧
+    ∀ k, k < c.streams.length → ∀ i, Qv (ptrLoop s maxOps es total c ps).2.1 (ptrLoop s maxOps es total c ps).2.2 k i ≤ Qv c ps k i := by
+  intro es
+  induction es with
+  | nil => intro total c ps _; exact ⟨Grown.refl c, fun _ _ _ => Nat.le_refl _⟩
+  | cons e rest ih =>
+    intro total c ps hgc
+    unfold ptrLoop
+    by_cases hb : total ≥ maxOps
+    · rw [if_pos hb]; exact ⟨Grown.refl c, fun _ _ _ => Nat.le_refl _⟩
+    · rw [if_neg hb]
+      simp only
+      obtain ⟨g1, g2, g3⟩ := iterate_window s e (ps.getD e Pointer.last) (maxOps - total) c hgc
+      obtain ⟨p', iters, c', hit⟩ : ∃ p' iters c', iterateEpochPointer (c.streams.map Stream.view) e (ps.getD e Pointer.last) (maxOps - total) (rewardsCb s) c = (p', iters, c') := ⟨_, _, _, rfl⟩
+      rw [hit] at g1 g2 g3 ⊢
+      simp only at g1 g2 g3 ⊢
+      obtain ⟨h1, h2⟩ := ih (total + iters) c' (ps.set e p') (hgc.of_grown g1)
+      refine ⟨Grown.trans g1 h1, ?_⟩
+      intro k hk i
+      have hk' : k < c'.streams.length := by rw [g1.1]; exact hk
+      refine Nat.le_trans (h2 k hk' i) ?_
+      -- one pointer step does not increase Qv
+      unfold Qv
+      have hst := slot_static g1 k hk
+      have hep : (slot c' k).epochId = (slot c k).epochId := by rw [hst]
+      rw [hep, pendId_static hst]
+      by_cases he : (slot c k).epochId = e
+      · rw [he]
+        by_cases hl : e < ps.length
+        · have : (ps.set e p').getD e Pointer.last = p' := by simp [List.getD_eq_getElem?_getD, hl]
+          rw [this]; exact g2 k hk i
+        · have h3 : (ps.set e p').getD e Pointer.last = Pointer.last := by
+            rw [List.getD_eq_getElem?_getD, List.getElem?_eq_none (by rw [List.length_set]; omega)]; rfl
+          have h4 : ps.getD e Pointer.last = Pointer.last := by
+            rw [List.getD_eq_getElem?_getD, List.getElem?_eq_none (by omega)]; rfl
+          rw [h3]
+          have := g2 k hk i
+          rw [h4] at this ⊢
+          have hb2 : (slot c k).id < maxU64 := by rw [slot_eq c k hk]; exact hgc.bound _ (List.getElem_mem hk)
+          rw [pendId_last _ hb2 i] at this ⊢
+          omega
+      · have h5 : (ps.set e p').getD (slot c k).epochId Pointer.last = ps.getD (slot c k).epochId Pointer.last := by
+          simp only [List.getD_eq_getElem?_getD]
+          rw [List.getElem?_set_ne (fun x => he x.symm)]
+        rw [h5]
+        have := g3 k hk he
+        unfold distAt
+        rw [this]
+        exact Nat.le_refl _
+
 end DymVerif.Incent
